@@ -99,7 +99,7 @@ CHECKS["C01"] = dict(
 CHECKS["C03"] = dict(
     engine="E3-bmc", ref="DESIGN.md §3.3",
     technique="z3 QF_BV bounded model checking of each producer/worker stage (producer script and worker reaction table extracted from the real functions; schedule symbolic, complete bound) with deterministic-scheduler replay on the real code",
-    text="For leaf visits, transforms, multi-TAN and multi-WCS tiling: for ALL interleavings of producer, feeder flushes, worker receives/time-outs/callbacks/exits with 1-2 items and 2 workers (thorough: up to 5 items, 3 workers) and the queue capacity the code passes, z3 shows the entry point returns only after every item's callback completed and every worker exited, each item is processed exactly once, no deadlock, termination; the real producer enqueues exactly the serial item set.",
+    text="For leaf visits, transforms, multi-TAN and multi-WCS tiling: for ALL interleavings of producer, feeder flushes, worker receives/time-outs/callbacks/exits with 1-2 items and 2 workers (thorough: up to 5 items, 3 workers) and the queue capacity the code passes, z3 shows the entry point returns only after every item's callback completed and every worker exited, each item is processed exactly once, no deadlock, termination; the real producer enqueues exactly the serial item set; a producer whose put() has a time-out offers the item again after queue.Full (extracted; a dropped item is confirmed by a directed schedule on the real code).",
     note="trusted model of multiprocessing; worker = memoryless loop inferred by exhaustive probing of the real function (fails closed); pipe order not modelled (over-approximation).",
 )
 
@@ -139,6 +139,6 @@ CHECKS["C17"] = dict(
 CHECKS["C07"] = dict(
     engine="E4-decy-euf", ref="DESIGN.md §4.10",
     technique="z3-backed symbolic execution (symx path exploration) of the decythonised _tile_intersects_latlon_bbox on real tile corners with a symbolic box and on fully symbolic corners under the stated tile hypothesis; of the real chunk-sampler closures with a symbolic sky point; and of the real WcsSampler._image_bounds with a symbolic affine WCS",
-    text="For every real TOAST tile of levels 1..5 (thorough 1..7), both coordinate systems, and EVERY lat/lon box (symbolic origin, width up to 4pi, poles and wrap seam included) the bounding-box test accepts the tile whenever one of its selected pixel centres (or extreme pixel centres of its descendants two levels deeper) is in the box; under hypothesis H it does so for every corner configuration, every longitude order and wrap; the filter never writes to the tile; chunk filters get exactly the chunk rectangle, the chunk grid tiles the map and each chunk sampler accepts exactly the points of its own cells and reads the right cell (all sky points, stated grids); _image_bounds contains the whole footprint for plate-carree WCSs with symbolic scales/parity/reference values at stated sizes and rotations.",
+    text="For every real TOAST tile of levels 1..5 (thorough 1..7), both coordinate systems, and EVERY lat/lon box (symbolic origin, width up to 4pi, poles and wrap seam included) the bounding-box test accepts the tile whenever one of its selected pixel centres (or extreme pixel centres of its descendants two levels deeper) is in the box; under hypothesis H it does so for every corner configuration, every longitude order and wrap; the filter never writes to the tile; chunk filters get exactly the chunk rectangle, the chunk grid tiles the map and each chunk sampler accepts exactly the points of its own cells and reads the right cell (all sky points, stated grids); _image_bounds contains the whole footprint for plate-carree WCSs with symbolic scales/parity/reference values at stated sizes and rotations, and for a latitude maximum at a symbolic interior pixel (quadratic, pole-like map) its refined maximum lies within one pixel of the extremum.",
     note="reals for doubles; H is an assumption about TOAST tile geometry (rejected H-configurations are reported only when a real tile reproduces them); pixel centres for the real-tile obligations are the grid corners, the centre and the latitude / longitude extremes of the real 256x256 grid; non-affine WCS projections (wcslib) are outside the claim; the compiled extension is validated against the .pyx (cannot be rebuilt here).",
 )
